@@ -153,13 +153,6 @@ theorem noPanic_dtlsRecordDecode (bs : List UInt8) (s : String) : runBuf Dtls.re
 theorem noPanic_dtlsHandshakeDecode (bs : List UInt8) (s : String) : runBuf Dtls.handshakeDecode bs ≠ .panic s :=
   safe_noPanic (Dtls.handshakeDecode_safe (B := 0) (Q := fun _ _ _ => True) (by omega) (fun _ _ _ => trivial)) s
 
-/-- the record loop of `handle_incoming_packet` and the message loop of `process_handshake_payload` terminate on
-every datagram / record payload (each iteration consumes ≥ 13 resp. ≥ 12 bytes or leaves the loop). -/
-theorem noPanic_dtlsRecordWalk (bs : List UInt8) (s : String) : runBuf Dtls.recordWalk bs ≠ .panic s :=
-  safe_noPanic (Dtls.recordWalk_safe _ _) s
-theorem noPanic_dtlsHandshakeWalk (bs : List UInt8) (s : String) : runBuf Dtls.handshakeWalk bs ≠ .panic s :=
-  safe_noPanic (Dtls.handshakeWalk_safe _ _) s
-
 /-- `ClientHello::decode` / `ServerHello::decode` (after the `fix:` commit): total, allocation ≤ |bs|. -/
 theorem noPanic_clientHello (bs : List UInt8) (s : String) : runBuf Dtls.clientHelloDecode bs ≠ .panic s :=
   safe_noPanic (Dtls.clientHelloDecode_safe _) s
@@ -193,24 +186,23 @@ theorem noPanic_clientExtWalk (bs : List UInt8) (s : String) : runBuf Dtls.clien
 theorem noPanic_serverExtWalk (bs : List UInt8) (s : String) : runBuf Dtls.serverExtWalk bs ≠ .panic s :=
   safe_noPanic (Dtls.serverExtWalk_safe _) s
 
-/-- the 16-bit handshake message counter of `process_handshake_payload` (after the `fix:` commit): any number of
-accepted in-order messages never panics and never leaves `u16` — exhaustion is a handshake error. -/
-theorem handshake_seq_counter_total (k s0 : Nat) (b : Buf) (n : Nat) (site : String) (hs : s0 ≤ 65535) :
-    Dtls.seqRun k s0 b n ≠ .panic site :=
-  safe_noPanic (Dtls.seqRun_safe k s0 b n hs) site
-
-/-- **dtls_reassembly_bounded**: for every history of decoded handshake messages (any types, sequence numbers,
-fragment offsets and lengths, on client or server, including the post-HelloVerifyRequest re-sync), the acceptance /
-fragment-reassembly bookkeeping of `process_handshake_payload` never panics, keeps `recv_message_seq` inside u16
-(exhaustion aborts the handshake) and keeps the reassembly buffer below 2^24 bytes — a peer cannot make
-`incomplete_handshake` grow without bound. (Tied to the code by reading + the live-endpoint exploration.) -/
-theorem dtls_reassembly_bounded (isClient : Bool) (ms : List Dtls.HsMsg) (b : Buf) (n : Nat) (site : String)
-    (hm : ∀ m ∈ ms, m.seq ≤ 65535 ∧ m.total < 16777216) :
-    Dtls.onMessages isClient {} ms b n ≠ .panic site ∧
-    ∀ c b' n', Dtls.onMessages isClient {} ms b n = .ok c b' n' → c.recvSeq ≤ 65535 ∧ c.incLen < 16777216 := by
-  have h := Dtls.onMessages_safe isClient ms {} b n (by unfold Dtls.HsCtx.Ok; decide) hm
+/-- **dtls_reassembly_bounded**: for every history of DATAGRAMS (arbitrary bytes) handed to the handshake run loop of an
+endpoint that has no keys yet (client or server) — the record loop of `handle_incoming_packet` (decode, epoch-0
+application-data skip, undecryptable-record break, alert indexing, error ends the datagram) and inside it the message
+loop of `process_handshake_payload` (messages decoded by the `HandshakeMessage::decode` model): the acceptance /
+fragment-reassembly bookkeeping of `process_handshake_payload` — sequence acceptance with the post-HVR re-sync, the
+clear-text-after-keys skip, buffer reset, the offset check, append, completion, `checked_add` of `recv_message_seq`,
+transcript append — never panics, leaves its loop, keeps `recv_message_seq` inside u16 (exhaustion ends the payload with
+an error) and keeps `incomplete_handshake` below 2^24 bytes. The model is compared with the real run loop on every run
+(stream `dtlsctx`: real multi-record datagrams into a real `DtlsTransport`; the context is published by a hook after each
+datagram; handshake message types whose handler is a no-op for the endpoint's role). Handlers themselves (crypto, certificates, flights) are outside the model. -/
+theorem dtls_reassembly_bounded (isClient : Bool) (datagrams : List (List UInt8)) (b : Buf) (n : Nat) (site : String) :
+    Dtls.datagramHistory isClient {} datagrams b n ≠ .panic site ∧
+    ∀ cs b' n', Dtls.datagramHistory isClient {} datagrams b n = .ok cs b' n' →
+      ∀ c ∈ cs, c.recvSeq ≤ 65535 ∧ c.incLen < 16777216 := by
+  have h := Dtls.datagramHistory_safe isClient datagrams {} b n (by unfold Dtls.HsCtx.Ok; decide)
   refine ⟨safe_noPanic h site, ?_⟩
-  intro c b' n' hr
+  intro cs b' n' hr
   unfold safe at h
   rw [hr] at h
   exact h
